@@ -30,7 +30,15 @@ RULE = ('four case groups, classes chosen round-robin from the case index: "stro
         'points (hostile polar angles incl. the axes and 0.03 rad from the cut, radii over 4 decades, any position along the line), at 20 radii '
         'on the cut, on its continuation and on 5 other rays, on a 256-point circuit, and (Miller) at 12 points built from in-plane lattice vectors. '
         'A case is non-trivial when the solver returned a solution and all field monitors were evaluated on it; '
-        'distinct = distinct fingerprint of (stiffness, Burgers vector, transform or cell+indices, m, n).')
+        'distinct = distinct fingerprint of (stiffness, Burgers vector, transform or cell+indices, m, n).  '
+        '"resolve" = histories on ONE solution object (2 Stroh : 1 isotropic; constructed directly or through the wrapper): 14 templates = start orientation '
+        '(identity, transform, axes=, list, Miller) + 1-3 successive obj.solve() calls each changing one argument (C; Burgers vector new class / negated; '
+        'm,n new assignment / omitted = defaults; a solve() the solver refuses in between; new transform; transform <-> Miller <-> none; new line/plane in the same cell; new cell with the same indices); '
+        'the first read after each solve is stratified (nothing, u, strain, stress, K, preln/K_coeff, single points); after EVERY solve the object goes through '
+        'all monitors of a fresh solution (incl. covariance against a partner object that is itself re-solved) and is compared with a freshly constructed '
+        'object for the same arguments; one history in four reads only one kind of quantity at the intermediate steps; on every second re-solve the previous '
+        'ElasticConstants object is handed in again (re-assigned through its Cij= / Cijkl= setters when the stiffness changes) and an unchanged cell is the same Box object.  Every probed solution of every group '
+        'is re-evaluated at the end (bit-identical results required) and the caller\'s arrays (positions, C, b, transform, m, n, indices, cell) are compared with copies.')
 ASSUMPTIONS = [
     'Stroh inputs are kept away from sextic-root degeneracy: distinct upper-half-plane roots of the oracle\'s own sextic '
     'differ by >= 0.05 and have imaginary part >= 0.08 (resampled otherwise; the near-isotropic limit family is exempt and '
@@ -738,6 +746,271 @@ def unitv(v):
 
 
 # ----------------------------------------------------------------------------
+# re-solve histories on ONE solution object
+def _make_call(am, st):
+    """atomman arguments of a state (fresh copies on every call) and pristine copies to compare with afterwards."""
+    stiff, b_arg, kwd = P.hist_args(st)
+    if st['solver'] == 'iso':
+        lam, mu, nu, how = stiff['lam'], stiff['mu'], stiff['nu'], stiff['how']
+        if how == 0:
+            C = am.ElasticConstants(Cij=stiff['c6'].copy())
+        elif how == 1:
+            C = am.ElasticConstants(mu=mu, nu=nu) if nu != 0 else am.ElasticConstants(mu=mu, M=lam + 2 * mu)
+        else:
+            C = am.ElasticConstants(C11=lam + 2 * mu, C12=lam)
+    else:
+        C = make_C(am, stiff['c6'], 'Cij' if stiff['how'] else 'Cijkl')
+    kw = dict(kwd)
+    if 'box' in kw:
+        ctor = kw['box']['ctor']
+        kw['box'] = getattr(am.Box, ctor[0])(**ctor[1])
+    return C, b_arg, kw
+
+
+def _reuse_inputs(rec, st, change, parity, C, kw, prev):
+    """Input OBJECTS with a history of their own: on every second re-solve the ElasticConstants object of the previous
+    step is handed in again - as it is when the stiffness did not change, re-assigned through its public setters
+    (Cij= / Cijkl=) when it did - and an unchanged cell is handed in as the same Box object."""
+    if prev is None or parity:
+        rec.count('class:resolve:C-object:new')
+        return C, kw
+    Cp, boxp, ctorp, c6p = prev
+    if not np.array_equal(c6p, st['stiff']['c6']):          # change 'C' (or a structurally degenerate combination replaced by the generator)
+        if st['solver'] == 'stroh' and st['stiff']['how']:
+            Cp.Cijkl = O.c4_from_voigt(st['stiff']['c6'])
+        else:
+            Cp.Cij = np.array(st['stiff']['c6'])
+        rec.count('class:resolve:C-object:reassigned-through-setter')
+    else:
+        rec.count('class:resolve:C-object:same-object-again')
+    if 'box' in kw and boxp is not None and st['orient']['ctor'] == ctorp:
+        kw = dict(kw, box=boxp)
+        rec.count('class:resolve:box-object:same-object-again')
+    return Cp, kw
+
+
+def _snapshot(C, b_arg, kw):
+    import copy
+    snap = {k: copy.deepcopy(v) for k, v in kw.items() if k != 'box'}
+    snap['burgers'] = copy.deepcopy(b_arg)
+    snap['Cij'] = np.array(C.Cij)
+    if 'box' in kw:
+        snap['box.vects'] = np.array(kw['box'].vects)
+    return snap
+
+
+def _same(a, b):
+    if isinstance(a, str) or isinstance(b, str) or isinstance(a, list) or isinstance(b, list):
+        return type(a) is type(b) and a == b
+    a, b = np.asarray(a), np.asarray(b)
+    return a.shape == b.shape and a.dtype == b.dtype and np.array_equal(a, b)
+
+
+def _inputs_unmodified(rec, key, snap, C, b_arg, kw):
+    now = _snapshot(C, b_arg, kw)
+    bad = [k for k in snap if not _same(snap[k], now[k])]
+    rec.check(not bad, 'solving and evaluating results does not modify the caller\'s inputs (C, burgers, transform/axes, m, n, Miller indices, box)',
+              f'{key}:input-unmodified:arguments', modified=bad)
+
+
+def _cabs(a, b):
+    a, b = np.asarray(a), np.asarray(b)
+    if a.shape != b.shape:
+        return np.array([np.inf])
+    return np.abs(a - b)
+
+
+FRESH_TOL = 1e-12      # same deterministic arithmetic on both objects; the only legitimate difference is the round-off of stating the
+#                        same moduli in two ways (mu, nu  vs  Cij through the setter: ~1e-16, amplified by at most 1/(1-2 nu) <= 100)
+
+
+def same_as_fresh(rec, sol, fresh, key, solver, x, only=None):
+    """Differential clause: the re-used object is indistinguishable from a freshly constructed one."""
+    cl = 'after solve() on an existing object every result equals that of a freshly constructed object for the same input: '
+    k = f'{key}:vs-fresh'
+    bmag = float(np.linalg.norm(fresh.burgers))
+    r = np.hypot(x @ fresh.m, x @ fresh.n)
+
+    def field(name):
+        a, b = np.asarray(getattr(sol, name)(x)), np.asarray(getattr(fresh, name)(x))
+        sc = np.abs(b).reshape(len(x), -1).max(axis=1) if b.shape[:1] == (len(x),) else np.abs(b).max()
+        if name == 'displacement':
+            sc = sc + bmag
+        rec.close(FRESH_TOL, _cabs(a, b) / (sc.reshape((-1,) + (1,) * (b.ndim - 1)) if np.ndim(sc) else sc), np.zeros(b.shape), cl + name, f'{k}:{name}')
+        rec.count('resolve:vs-fresh:field-comparisons')
+    if only in ('u', 'strain', 'stress'):
+        field(dict(u='displacement', strain='strain', stress='stress')[only])
+        return
+    Kf = np.asarray(fresh.K_tensor)
+    kmax = np.abs(Kf).max()
+    if only in (None, 'K', 'preln', 'single'):
+        rec.close(FRESH_TOL * kmax, _cabs(sol.K_tensor, Kf), np.zeros((3, 3)), cl + 'K_tensor', f'{k}:K')
+        rec.close(0, sol.preln, fresh.preln, cl + 'preln', f'{k}:preln', rtol=FRESH_TOL)
+        rec.close(0, sol.K_coeff, fresh.K_coeff, cl + 'K_coeff', f'{k}:K_coeff', rtol=FRESH_TOL)
+    if only == 'single':
+        for name in ('displacement', 'strain', 'stress'):
+            a, b = np.asarray(getattr(sol, name)(x[2])), np.asarray(getattr(fresh, name)(x[2]))
+            rec.close(FRESH_TOL * (np.abs(b).max() + (bmag if name == 'displacement' else 0)), _cabs(a, b), np.zeros(b.shape), cl + name + ' (single point)', f'{k}:{name}')
+    if only is not None:
+        return
+    for name in ('burgers', 'transform', 'm', 'n', 'ξ'):
+        b = np.asarray(getattr(fresh, name))
+        rec.close(FRESH_TOL * np.abs(b).max(), getattr(sol, name), b, cl + name + ' attribute', f'{k}:{name}')
+    rec.check(sol.tol == fresh.tol, cl + 'tol attribute', f'{k}:tol')
+    rec.close(FRESH_TOL * np.abs(fresh.C.Cij).max(), sol.C.Cij, fresh.C.Cij, cl + 'C attribute', f'{k}:C')
+    rec.close(FRESH_TOL, sol.characterangle(), fresh.characterangle(), cl + 'characterangle', f'{k}:characterangle')
+    if solver == 'stroh':
+        for name in ('p', 'A', 'L', 'k'):
+            b = np.asarray(getattr(fresh, name))
+            rec.close(FRESH_TOL * np.abs(b).max(), _cabs(getattr(sol, name), b), np.zeros(b.shape), cl + 'Stroh ' + name, f'{k}:{name}')
+    else:
+        rec.close(0, sol.mu, fresh.mu, cl + 'mu', f'{k}:mu', rtol=FRESH_TOL)
+        rec.close(FRESH_TOL, sol.nu, fresh.nu, cl + 'nu', f'{k}:nu')
+    for name in ('displacement', 'strain', 'stress'):
+        field(name)
+    rec.count('resolve:vs-fresh:full')
+
+
+def _pre_read(sol, kind, x):
+    """The first thing read after a solve (before any monitor)."""
+    if kind == 'u':
+        sol.displacement(x)
+    elif kind == 'strain':
+        sol.strain(x)
+    elif kind == 'stress':
+        sol.stress(x)
+    elif kind == 'K':
+        sol.K_tensor
+    elif kind == 'preln':
+        sol.preln, sol.K_coeff
+    elif kind == 'single':
+        sol.stress(x[0]), sol.displacement(x[1].tolist()), sol.strain(x[2])
+
+
+def run_resolve(ctx, am):
+    """2-4 successive solve() calls on one object, one argument changed at a time, results read in between;
+    after every solve the object is judged exactly like a fresh one and compared with a fresh one."""
+    rec = ctx.rec
+    nT = len(P.HIST_TEMPLATES)
+    n_cases = ctx.pick(3 * nT * 4, 3 * nT * 40)
+    for i in ctx.cases('resolve', n_cases):
+        rng = ctx.rng
+        solver = 'iso' if i % 3 == 2 else 'stroh'
+        h = i // 3
+        tk = h % nT
+        rnd = i // (3 * nT)
+        start_kind, changes = P.HIST_TEMPLATES[tk]
+        light = rnd % 4 == 3                      # intermediate steps: one kind of read only; full judgement after the last solve
+        use_wrapper = (rnd + h) % 2 == 1
+        scale = P.SCALES[(i // 5) % 3]
+        ls = 1.0 if P.template_has_miller(tk) else LSCALES[(tk + rnd + i % 3) % 3]
+        cls = (am.defect.IsotropicVolterraDislocation if solver == 'iso' else am.defect.Stroh)
+        name = 'Isotropic' if solver == 'iso' else 'Stroh'
+        st = P.hist_start(rng, solver, start_kind, h, scale, ls, GAP_MIN, IM_MIN, rec.count)
+        rec.count(f'class:resolve:solver:{solver}')
+        rec.count(f'class:resolve:template:{tk}')
+        rec.count(f'class:resolve:mode:{"light" if light else "full"}')
+        rec.count(f'class:resolve:length:{ls:g}')
+        sol = rot = prev = None
+        fps, done, nsolved = [], True, 0
+        steps = ('initial',) + tuple(changes)
+        for sidx, change in enumerate(steps):
+            if change == 'refused':
+                # a solve() the solver rejects (Stroh: exactly isotropic medium; isotropic solver: anisotropic medium); whatever it leaves
+                # behind, the next accepted solve() must be judged like a fresh object
+                lam_, mu_, _nu = P.random_iso(rng, 'typical')
+                Cbad = am.ElasticConstants(Cij=P.iso_c6(lam_ * scale, mu_ * scale) if solver == 'stroh' else P.stiffness(rng, 'triclinic', scale))
+                _C, b_bad, kw_bad = _make_call(am, st)
+                with ctx.guard('a medium outside the solver\'s model is refused with ValueError', f'resolve:{name}:refused-solve', accept=(ValueError,)):
+                    sol.solve(Cbad, b_bad, **kw_bad)
+                    rec.count('resolve:refusal-expected-but-solved')
+                rec.count('resolve:refused-solves')
+                continue
+            if sidx:
+                st = P.hist_step(rng, st, change, i + sidx, GAP_MIN, IM_MIN, rec.count)
+            e = P.hist_expected(st)
+            fps.append(fingerprint(st['stiff']['c6'], e['b'], e['T'], e['m'], e['n']))
+            key = f'resolve:{name}:{"initial" if not sidx else "after-" + change}'
+            C, b_arg, kw = _make_call(am, st)
+            C, kw = _reuse_inputs(rec, st, change, (i + sidx) % 2, C, kw, prev)
+            prev = (C, kw.get('box'), st['orient'].get('ctor'), st['stiff']['c6'].copy())
+            snap = _snapshot(C, b_arg, kw)
+            ok = False
+            with ctx.guard('solve() on an existing object accepts a well-conditioned in-domain problem' if sidx else
+                           'the solver accepts a well-conditioned in-domain problem', f'{key}:solve'):
+                if sol is None:
+                    sol = am.defect.solve_volterra_dislocation(C, b_arg, **kw) if use_wrapper else cls(C, b_arg, **kw)
+                    if type(sol) is not cls:
+                        rec.fail('solve_volterra_dislocation returns the solver class that accepts the medium', f'{key}:wrapper-class', got=type(sol).__name__)
+                        sol = None
+                else:
+                    ret = sol.solve(C, b_arg, **kw)
+                    rec.check(ret is None, 'solve() returns None (the object itself is updated)', f'{key}:solve-returns-none')
+                    rec.count('resolve:re-solves')
+                    rec.count('class:resolve:change:' + change)
+                    rec.count(f'class:resolve:change:{solver}:{change}')
+                    if steps[sidx - 1] == 'refused':
+                        rec.count('resolve:accepted-solve-after-refused-solve')
+                ok = sol is not None
+            if not ok:
+                done = False
+                break
+            nsolved += 1
+            last = sidx == len(steps) - 1
+            read = P.HIST_READS[(i + 3 * sidx) % len(P.HIST_READS)]
+            rec.count('class:resolve:first-read:' + read)
+            xq, _r, _t = P.field_points(rng, e['m'], e['n'], 40)
+            xq = xq * ls
+            _pre_read(sol, read, xq)
+            fresh = None
+            with ctx.guard('a fresh object is constructed for the same input', f'{key}:fresh-solve'):
+                C2, b2, kw2 = _make_call(am, st)
+                fresh = cls(C2, b2, **kw2)
+            if light and not last:
+                if fresh is not None and read != 'none':
+                    same_as_fresh(rec, sol, fresh, key, solver, xq, only=read)
+                rec.count('resolve:light-steps')
+                _inputs_unmodified(rec, key, snap, C, b_arg, kw)
+                continue
+            spec = dict(solver=solver, key=key, c4=e['c4'], b=e['b'], T=e['T'], m=e['m'], n=e['n'], ls=ls)
+            pb = Probe(ctx, sol, spec)
+            K = pb.all()
+            if K is None:
+                done = False
+            else:
+                rec.count('resolve:probed')
+                if sidx:
+                    rec.count('resolve:probed-after-re-solve')
+                if solver == 'iso':
+                    sf = st['stiff']
+                    iso_closed_form(rec, sol, pb, K, sf['mu'], sf['nu'], e['b'], e['m'], e['n'], st['mn']['cls'] if st['mn']['cls'] != 'default' else 'xy', key)
+
+                # covariance: the rotated problem lives on a second object that is re-solved along with the first
+                def build(R, e=e, C=C):
+                    nonlocal rot
+                    args = (C, e['b_cart'].copy())
+                    kwr = dict(transform=R @ e['T'], m=R @ e['m'], n=R @ e['n'])
+                    if rot is None:
+                        rot = cls(*args, **kwr)
+                    else:
+                        rot.solve(*args, **kwr)
+                        rec.count('resolve:partner-re-solves')
+                    return rot
+                pb.covariance(build, K)
+            if fresh is not None:
+                same_as_fresh(rec, sol, fresh, key, solver, xq)
+            _inputs_unmodified(rec, key, snap, C, b_arg, kw)
+        if done:
+            rec.count('resolve:histories-completed')
+            rec.count(f'resolve:histories-of-{nsolved}-solves')
+        rec.case(('resolve', solver, tk, 'light' if light else 'full', use_wrapper, ls), nontrivial=done, fp=fingerprint(*fps))
+        if rnd < 1 and tk < 4:
+            rec.sample(dict(solver=solver, start=start_kind, changes=changes, mode='light' if light else 'full', length_scale=ls,
+                            final=dict(Cij=st['stiff']['c6'], transform=e['T'], burgers_dislocation_frame=e['b'], m=e['m'], n=e['n'])))
+
+
+
+# ----------------------------------------------------------------------------
 ANCHORS = ['atomman/defect/Stroh.py', 'atomman/defect/IsotropicVolterraDislocation.py', 'atomman/defect/VolterraDislocation.py',
            'atomman/defect/solve_volterra_dislocation.py', 'atomman/defect/dislocation_system_transform.py']
 
@@ -750,6 +1023,7 @@ def run(ctx):
     run_iso(ctx, am)
     run_limit(ctx, am)
     run_miller(ctx, am)
+    run_resolve(ctx, am)
     # anchored regions actually executed
     rec.count('reach:VolterraDislocation.find_transform', cover.hits('atomman/defect/VolterraDislocation.py', 239, 256))
     rec.count('reach:VolterraDislocation.solve', cover.hits('atomman/defect/VolterraDislocation.py', 144, 184))
@@ -806,6 +1080,37 @@ def run(ctx):
                  'clause:stress is divergence-free away from the line (central differences, relative to |sigma|/r)',
                  'clause:preln equals the energy prefactor of the solution\'s own fields: int 1/2 sigma:eps r^2 dtheta'):
         rec.floor(name, 540)
+    # re-solve histories, repeated evaluation, untouched inputs
+    rec.floor('class:resolve:solver:stroh', 112)
+    rec.floor('class:resolve:solver:iso', 56)
+    for k_ in range(len(P.HIST_TEMPLATES)):
+        rec.floor(f'class:resolve:template:{k_}', 12)
+    for c in P.HIST_CHANGES:
+        rec.floor('class:resolve:change:' + c, 24)
+        rec.floor('class:resolve:change:stroh:' + c, 16)
+        rec.floor('class:resolve:change:iso:' + c, 8)
+    for c in P.HIST_READS:
+        rec.floor('class:resolve:first-read:' + c, 70)
+    rec.floor('class:resolve:C-object:reassigned-through-setter', 34)
+    rec.floor('class:resolve:C-object:same-object-again', 150)
+    rec.floor('class:resolve:box-object:same-object-again', 36)
+    rec.floor('class:resolve:mode:full', 126)
+    rec.floor('class:resolve:mode:light', 42)
+    rec.floor('class:resolve:length:1e-10', 28)
+    rec.floor('class:resolve:length:10000', 28)
+    rec.floor('resolve:re-solves', 400)
+    rec.floor('resolve:refused-solves', 24)
+    rec.floor('resolve:accepted-solve-after-refused-solve', 24)
+    rec.floor('resolve:partner-re-solves', 290)
+    rec.floor('resolve:probed-after-re-solve', 340)
+    rec.floor('resolve:vs-fresh:full', 460)
+    rec.floor('resolve:vs-fresh:field-comparisons', 1400)
+    rec.floor('resolve:light-steps', 95)
+    rec.floor('resolve:histories-completed', 164)
+    rec.floor('resolve:histories-of-4-solves', 90)
+    rec.floor('repeat:evaluated', 1000)
+    rec.floor('clause:evaluating displacement, strain and stress does not modify the array of positions handed in', 2000)
+    rec.floor('clause:solving and evaluating results does not modify the caller\'s inputs (C, burgers, transform/axes, m, n, Miller indices, box)', 560)
     rec.floor('reach:VolterraDislocation.find_transform', 8)
     rec.floor('reach:Stroh.solve', 25)
     rec.floor('reach:Stroh.fields', 40)
